@@ -179,6 +179,9 @@ def inst_receive_address(cx, iid):
 
 
 SELFTEST = [
+    {"name": "Receive sink rewrites the address it is given (C08k-2)",
+     "edits": [{"file": "src/server/mod.rs", "old": "        Self {\n            address,\n            event_queue,\n        }", "new": "        Self {\n            address: net::SocketAddr::new(address.ip(), address.port() ^ 1),\n            event_queue,\n        }"}],
+     "expect": ["C08.i"]},
     {"name": "push Disconnect in handle_disconnect_ack without leaving Closing (server)",
      "edits": [{"file": "src/server/mod.rs", "old": "                    self.events_out.push(Event::Disconnect(client_addr));\n\n                    client.state = remote_client::State::Fin;\n                    std::mem::drop(client);\n                    self.clients.remove(&client_addr);", "new": "                    self.events_out.push(Event::Disconnect(client_addr));\n                    std::mem::drop(client);"}],
      "expect": ["C08.b"]},
